@@ -191,4 +191,18 @@ CLAIMS = {
               "get_forbidden_operations, not a shape-of-the-code fact. The rules above are necessary conditions of it. Trusted: itertools.combinations."),
         technique="static analysis: truth tables over enum domains, literal table evaluation, sibling-mirror comparison of normal forms, loop summaries",
     ),
+    "C17": dict(
+        text=("The shipped layouts are literal tables, so their executability is decided completely: the Surface-17 tables (17 qubits, 24 edges, "
+              "frequency groups, parity groups, feedlines) and all 18 layers / 40 gates of the three repetition layouts are evaluated from the "
+              "constructor literals and checked: every gate is a device edge (unordered); qubits of a layer pairwise distinct; nobody parked and "
+              "gated at once; every qubit that REQUIRES parking -- by the checker's own predicate over the extracted tables, not the repository's "
+              "function -- is parked; each parity-group edge exactly once per sequence and nothing else; the generic layer delegates device queries "
+              "to the Surface-17 layer. Derived descriptions: from_connectivity keeps a gate iff ALL qubits of its edge are involved (universal "
+              "quantifier over the whole qubit pair and the whole gate list), recomputes parking from the kept gates over all device qubits, and "
+              "maps identifiers by enumerate (injective by construction); composite exclusions only remove gates and park for what remains; edge "
+              "identity is order independent (shared C19.I2)."),
+        note=("Decides the tables exhaustively (they are finite literals) and the derivation structurally for ALL subsets of involved qubits. "
+              "Trusted: the parking predicate of DESIGN C16.Q4 as the meaning of 'requires parking'; parking more than required is allowed."),
+        technique="static analysis: literal table evaluation with relational checks between tables; quantifier / iteration-domain classification of the derivation filters",
+    ),
 }
